@@ -122,6 +122,7 @@ func runC05(c *Ctx) {
 	c.r0523(pk, "R05.23")
 	c.r0524(pk)
 	c.r0525(pk)
+	c.r0527(pk)
 	c.r0526(pk, "R05.26")
 	// the same escaper as in the XML minifier: SVG is XML
 	c.r069("R05.21", "svg")
@@ -2322,4 +2323,99 @@ func (c *Ctx) r0526(pk *packages.Package, rule string) {
 		}
 	}
 	c.R.Floor(rule, "formatted computed coordinates", n, 1)
+}
+
+// R05.27: an attribute value is not case-folded as a whole.
+func (c *Ctx) r0527(pk *packages.Package) {
+	const rule = "R05.27"
+	c.R.Rule(rule, "SVG attribute values hold case-sensitive parts: fragment identifiers, custom property names (`var(--brandBlue)`), colour profile names (`icc-color(PhotoRGB, …)`). parse.ToLower / ToUpper of the dependency rewrite their argument in place. In package svg no such call (and no `v = bytes.ToLower(v)`) is applied to a value as a whole — a variable one of whose definitions reads a token's AttrVal, Data or Text — except behind the true outcome of a test of the value against '#' (the digits of a hex colour are case-insensitive); the unit of a dimension, a slice of the value, may be folded")
+	info := pk.TypesInfo
+	examined, whole := 0, 0
+	for _, fd := range load.FuncDecls(pk) {
+		if fd.Body == nil {
+			continue
+		}
+		isWhole := func(e ast.Expr) (types.Object, bool) {
+			id, ok := ast.Unparen(e).(*ast.Ident)
+			if !ok {
+				return nil, false
+			}
+			obj := info.Uses[id]
+			if obj == nil {
+				return nil, false
+			}
+			hit := false
+			ast.Inspect(fd.Body, func(z ast.Node) bool {
+				as, ok := z.(*ast.AssignStmt)
+				if !ok {
+					return true
+				}
+				for i, l := range as.Lhs {
+					lid, ok := l.(*ast.Ident)
+					if !ok || (info.Defs[lid] != obj && info.Uses[lid] != obj) || i >= len(as.Rhs) {
+						continue
+					}
+					if sel, ok := ast.Unparen(as.Rhs[i]).(*ast.SelectorExpr); ok && (sel.Sel.Name == "AttrVal" || sel.Sel.Name == "Data" || sel.Sel.Name == "Text") {
+						hit = true
+					}
+				}
+				return true
+			})
+			return obj, hit
+		}
+		g := c.graph(pk, fd)
+		for _, y := range g.Nodes {
+			a := y.Ast()
+			if a == nil || y.Kind != flow.KStmt {
+				continue
+			}
+			var folds []*ast.CallExpr
+			for _, call := range findCalls(info, a, false, load.ParseMod+".ToLower", load.ParseMod+".ToUpper") {
+				folds = append(folds, call)
+			}
+			if as, ok := a.(*ast.AssignStmt); ok && len(as.Lhs) == 1 && len(as.Rhs) == 1 {
+				if ce, ok := ast.Unparen(as.Rhs[0]).(*ast.CallExpr); ok && len(ce.Args) == 1 {
+					if cn := calleeName(info, ce); (cn == "bytes.ToLower" || cn == "bytes.ToUpper") && nospace(str(as.Lhs[0])) == nospace(str(ce.Args[0])) {
+						folds = append(folds, ce)
+					}
+				}
+			}
+			for _, call := range folds {
+				if len(call.Args) != 1 {
+					continue
+				}
+				examined++
+				obj, w := isWhole(call.Args[0])
+				if !w {
+					continue
+				}
+				whole++
+				hex := false
+				for _, f := range g.DomFacts(y) {
+					if f.Value && f.Test.Kind == flow.KCond {
+						if chars, _, _ := c.constsIn(pk, f.Test.Expr); chars['#'] && mentionsObject(info, f.Test.Expr, obj) {
+							hex = true
+						}
+					}
+				}
+				c.R.Check(hex, rule, fmt.Sprintf("svg.%s/%s folded as a whole#%d only when it is a hex colour", load.FuncName(fd), obj.Name(), whole), c.pos(call), "behind a test of the value against '#'",
+					"the attribute value "+obj.Name()+" is case-folded in place as a whole: `fill=\"var(--brandBlue)\"` → `var(--brandblue)`, `#CD853F icc-color(PhotoRGB, …)` → `… icc-color(photorgb, …)` — the reference to the custom property or colour profile is broken")
+			}
+		}
+	}
+	if whole == 0 {
+		c.R.OK(rule, "svg/no value is case-folded as a whole", "-", fmt.Sprintf("%d case-folding calls examined, all on slices of a value", examined))
+	}
+	c.R.Floor(rule, "case-folding calls in package svg", examined, 1)
+}
+
+func mentionsObject(info *types.Info, e ast.Node, obj types.Object) bool {
+	hit := false
+	ast.Inspect(e, func(z ast.Node) bool {
+		if id, ok := z.(*ast.Ident); ok && info.Uses[id] == obj {
+			hit = true
+		}
+		return !hit
+	})
+	return hit
 }
